@@ -223,7 +223,7 @@ func (g *gen) randSet(r *Rng, u string) *hop {
 func (g *gen) families(a *Args, rng *Rng, emit func(*hcase), deferCase func(mk func(r *Rng) *hcase)) {
 	thorough := a.Tier == "thorough"
 	u0 := g.near[0]
-	all := [][]string{g.near, g.hostile, g.long}
+	all := [][]string{g.near, g.near, g.near, g.near, g.near, g.hostile, g.hostile, g.hostile, g.hostile, g.long}
 
 	// A. expiry matrix: base x delta
 	k := 0
